@@ -49,6 +49,7 @@ func TestVerif_C22(t *testing.T) {
 	admin := srv.Session(t, "admin", "")
 	defer admin.Close()
 	cfg := c22Cfg()
+	t.Run("pinned_stale_read_after_failed_autocommit_dml", func(t *testing.T) { txPinnedStaleRead(t, srv, admin) })
 	vh.Check(t, "schedule", 350, 1500, func(rt *rapid.T) {
 		txRunCase(rt, srv, admin, cfg, rec)
 	})
